@@ -202,7 +202,6 @@ Qed.
 
 (* ================================================================== C. the rate monitor *)
 (* one unit: folding the observations o_1 .. o_n (oldest first) with the running count *)
-Definition b2r (b : bool) : R := if b then 1 else 0.
 Fixpoint count_true (l : list bool) : nat := match l with [] => O | b :: t => ((if b then 1 else 0) + count_true t)%nat end.
 Definition ca_step (st : Z * option R) (o : bool) : Z * option R :=
   let n := (fst st + 1)%Z in (n, Some (ca_fold RN n o (snd st))).
